@@ -312,6 +312,7 @@ func runC10(c *Ctx) {
 	c10Pooled(c)
 	c10StackLimitScan(c)
 	c10MemoCells(c)
+	c10ExportHelpers(c)
 	c.rule = "programs with state that survives an evaluation (constant lazy lists, constant maps and closures bound before use, recursion, failing elements, partially consumed lists; corpus + C01 generator with a constant list in scope) are generated once and evaluated in a history of up to 50 steps: arguments from a pool of 8, handed over as a sub-slice of a host-owned buffer with spare capacity (which must stay untouched), interleaved with evaluations of two other functions of the same generator, new Generate calls, results dropped, forced, or half consumed (first / top / size via the API) and consumed later; predicate: every outcome equals the isolated first evaluation of the same program and argument on a fresh generator, and the Lean model's reference outcome; non-trivial = distinct (program, history) with >= 3 evaluations over >= 2 different arguments of a program that contains a constant list/closure"
 	c.assume = append(c.assume, "state outside the model: list materialisation caches (C09 shows they are unobservable), package-level variables")
 	n := c.Pick(400, 12000)
